@@ -23,7 +23,16 @@ pub fn gen_fun_case(seed: u64, effects: EffectMode, tweak: impl FnOnce(&mut Prof
     let mut rng = Rng::new(seed);
     let mut prof = Profile::random(&mut rng, effects);
     tweak(&mut prof, &mut rng);
-    let (prog, feats) = gen_fun::generate(&mut rng, prof.clone());
+    let (mut prog, mut feats) = gen_fun::generate(&mut rng, prof.clone());
+    // generator self-check: a program with clashing declarations is the generator's fault
+    let mut tries = 0;
+    while let Err(m) = prog.self_check() {
+        tries += 1;
+        assert!(tries < 20, "gen_fun keeps producing clashing declarations: {m}");
+        let r = gen_fun::generate(&mut rng, prof.clone());
+        prog = r.0;
+        feats = r.1;
+    }
     let src = apr::print_prog(&prog, Naming::Policy);
     let twin = apr::print_prog(&prog, Naming::Unique);
     let n = prog.defs[prog.main].params.len();
